@@ -77,6 +77,9 @@ def gen_repo_world(t, family, prop=None):
     # there when a model of the first language imports it later
     w.mm2_repo = w.two_langs and t.chance(3 if prop == "C18" else 1, 4 if prop == "C18" else 2, "second-language-has-its-own-repository")
     w.unicode_names = t.chance(1, 4, "decomposed-unicode-in-file-names")
+    # the files may be stored in another encoding than UTF-8; every load is then told so (encoding=...), and that has
+    # to reach every file of the import closure
+    w.encoding = t.pick([None, None, None, "utf-8-sig", "utf-16"], "file-encoding")
     for i in range(n):
         d = "" if i == 0 and not t.chance(1, 4, "main-in-sub") else t.pick(DIRS, "dir")
         if family in SP and i > 0:
@@ -348,6 +351,7 @@ def gen_repo_world(t, family, prop=None):
                 w.inner_postponed.add(i)
     w.render()
     w.install(SIMFS)
+    SIMFS.stored_encoding = w.encoding
     w.inner_plan = {(r.owner.file, r.pos): 1 for i, r in enumerate(w.refs) if i in w.inner_postponed}
     return w
 
@@ -743,7 +747,7 @@ def run(ctx):
                 sysm.sched.calls.clear()
                 sysm.sched.anon_file = None
                 try:
-                    m2 = sysm.mm2.model_from_file(X)
+                    m2 = sysm.mm2.model_from_file(X, **({"encoding": w.encoding} if w.encoding else {}))
                 except Exception as e:
                     ctx.violate("C17", "valid-load-fails", famtag + "/second-language", f"{dump_error(e)}")
                     return
@@ -780,15 +784,20 @@ def run(ctx):
 def do_load(sysm, w, F, params, entry):
     """entry: 'file' | 'str' (string with file_name=) | 'anon' (string without a file name)"""
     sysm.sched.anon_file = F if entry == "anon" else None
+    enc = {"encoding": w.encoding} if getattr(w, "encoding", None) else {}
     if entry == "anon":
-        return sysm.mm.model_from_str(w.files[F].text, **params)
+        return sysm.mm.model_from_str(w.files[F].text, **enc, **params)
     if entry == "str" or entry is True:
-        return sysm.mm.model_from_str(w.files[F].text, file_name=F, **params)
-    return sysm.mm.model_from_file(F, **params)
+        return sysm.mm.model_from_str(w.files[F].text, file_name=F, **enc, **params)
+    return sysm.mm.model_from_file(F, **enc, **params)
 
 
 def anon_allowed(w, F):
     """A string model without a file name cannot resolve relative imports: only without import statements."""
+    if getattr(w, "encoding", None) and w.family in GR:
+        # model_from_str(text, encoding=E) without a file name does not hand E on to the files its provider loads
+        # (DESIGN.md section 6, "noticed": no sentence of a claimed property) - not generated
+        return False
     return w.family in GR or not w.files[F].imports
 
 
@@ -884,7 +893,7 @@ def op_undeclared(ctx, sysm, w, F, params, cache, famtag, t):
     how = t.draw(3, "undeclared-entry")
     try:
         if how == 1:
-            sysm.mm.model_from_str(w.files[F].text, **bad)
+            sysm.mm.model_from_str(w.files[F].text, **bad)  # (rejected before anything is read)
         elif how == 2:
             sysm.mm.model_from_str(w.files[F].text, file_name=F, **bad)
         else:
@@ -1169,7 +1178,7 @@ def op_bulk(ctx, prop, sysm, w, cache, famtag, global_repo, t, wrap):
     sysm.sched.anon_file = None
     err = None
     try:
-        base.load_models_in_model_repo(global_model_repo=repo)
+        base.load_models_in_model_repo(global_model_repo=repo, **({"encoding": w.encoding} if w.encoding else {}))
         outcome = "ok"
     except TextXError as e:
         outcome = "error"
@@ -1199,7 +1208,7 @@ def op_bulk(ctx, prop, sysm, w, cache, famtag, global_repo, t, wrap):
         _undo(w, kind, target, sysm)
         sysm.opens.clear()
         try:
-            base.load_models_in_model_repo(global_model_repo=repo)
+            base.load_models_in_model_repo(global_model_repo=repo, **({"encoding": w.encoding} if w.encoding else {}))
         except Exception as e:
             ctx.violate("C18", "repaired-load-fails", fclass, f"after the repair the bulk load fails: {dump_error(e)}")
             return False
